@@ -191,7 +191,7 @@ func c14EndBlock(w *e.World, m *c14Model) *e.Violation {
 			return e.Violatef("burn-redirect", "supply-changed-in-endblock:"+d, "block %d: supply of %s went from %s to %s during EndBlock (gov module %s -> %s)", w.Height, d, get(pre.supply, d), get(post.supply, d), get(pre.gov, d), get(post.gov, d))
 		}
 		left := sub(get(pre.gov, d), get(post.gov, d)) // coins that left the gov module
-		dcp := sub(get(post.cp, d), get(pre.cp, d))      // scaled by 1e18
+		dcp := sub(get(post.cp, d), get(pre.cp, d))    // scaled by 1e18
 		ddistr := sub(get(post.distr, d), get(pre.distr, d))
 		want := sub(left, get(refunds, d)) // what was neither kept nor refunded must be in the pool
 		// A validator that staking removes in this EndBlock (unbonded with no
